@@ -221,6 +221,17 @@ func (se *SpecEnv) lookupIdent(name string) (T, bool) {
 	if t, ok := se.bound[name]; ok {
 		return t, true
 	}
+	if !se.inOld && se.fr != nil && se.st != nil {
+		// a parameter that was spilled to a cell (captured by a closure or address-taken): outside old()
+		// the name denotes the variable's current value, i.e. the content of the cell
+		if vb, ok := se.st.vars[se.c.frameVarKey(se.fr, name)]; ok && vb.isAddr {
+			if se.fr.paramSet[name] {
+				term := se.c.loadWith(se.memOf, vb.val.S, vb.ty)
+				se.note(term, vb.ty)
+				return T{S: term, So: se.c.reg.SortOf(vb.ty), Ty: vb.ty}, true
+			}
+		}
+	}
 	if t, ok := se.vars[name]; ok {
 		return t, true
 	}
@@ -944,7 +955,11 @@ func (se *SpecEnv) evalCall(x *ECall) T {
 		if v.Ty == nil {
 			se.fail("iface() needs a typed pointer")
 		}
-		return T{S: fmt.Sprintf("(mk_iface %d %s)", se.c.reg.TagOf(v.Ty), v.S), So: "Iface"}
+		r := T{S: fmt.Sprintf("(mk_iface %d %s)", se.c.reg.TagOf(v.Ty), v.S), So: "Iface"}
+		if len(x.Args) > 1 {
+			r.Ty, _ = se.resolveType(x.Args[1].(*EStr).V)
+		}
+		return r
 	case "unbox":
 		// unbox(i, "T"): the T value held (boxed) in interface i
 		v := arg(0)
